@@ -54,7 +54,7 @@ def run(tier: str, seed: int, pid="C09") -> int:
         if r.status == "violated":
             run_.tlc_violation(r, "MC_Counting")
     res = pmap(rulelab.lab_job, jobs(tier, seed, ("count",)), procs=16, chunk=2)
-    keep = ("formterms", "provided", "kept") if pid == "C09" else ("reads", "formterms-error")
+    keep = ("formterms", "provided", "kept", "contract") if pid == "C09" else ("reads", "formterms-error")
     traces = []
     nforms = {}
     for r in res:
